@@ -138,7 +138,7 @@ def check(run: Run, lean: dict) -> int:
     ok = lean.get("driver_ok", True)
     rows = []
     for _ in range(n):
-        run_one(run, "generated", run.rng.choice(E.DOCS), None, run.rng.randint(0, 12), rows)
+        run_one(run, "generated", E.pick_doc(run.rng), None, run.rng.randint(0, 12), rows)
     if ok:
         compare_with_model(run, rows)
     return run.finish(lean, LEVEL, ASSUME, search=search)
@@ -152,7 +152,7 @@ def search(run: Run):
         if probe.violations:
             return [probe.violations[0]]
     for _ in range(1500):
-        run_one(probe, "search", probe.rng.choice(E.DOCS), None, probe.rng.randint(0, 14), [])
+        run_one(probe, "search", E.pick_doc(probe.rng), None, probe.rng.randint(0, 14), [])
         if probe.violations:
             return [probe.violations[0]]
     return None
